@@ -111,6 +111,9 @@ theorem cov_init (c : Cfg) (d0 : Int) (k : Nat) (s0 : St) (h0 : init c d0 k = so
 /-- A well-formed simulator response: a failure carries `data["reason"]`, a success the login data. -/
 def Resp.wf (r : Resp) : Prop := (r.ok = false → r.hasReason = true) ∧ (r.ok = true → r.hasLoginData = true)
 
+/-- What `_handle_login_response` needs of a history item: a SUCCESSFUL remote login carries the login data. -/
+def Hist.loginOk (h : Hist) : Prop := h.kind = .remoteLogin → h.resp.ok = true → h.resp.hasLoginData = true
+
 structure NR (c : Cfg) (s : St) : Prop where
   stage : s.cur = .failed ∨ s.nxt = s.cur.succ
   planned : (s.cur = .access ∨ s.cur = .manipulation ∨ s.cur = .exploit) → s.planned = true
@@ -120,7 +123,7 @@ structure NR (c : Cfg) (s : St) : Prop where
   start : s.startNode ∈ c.startSet
   queue : ∀ a ∈ s.acctQueue, a ∈ c.accountChanges
   nextA : ∀ a, s.nextAcct = some a → a ∈ c.accountChanges
-  hist : ∀ h ∈ s.hist, h.resp.wf
+  hist : ∀ h ∈ s.hist, h.loginOk
   var : 0 ≤ c.variance
   curT : 0 ≤ s.curT
   err : s.err = false
@@ -191,7 +194,7 @@ theorem nr_handleLogin (c : Cfg) (s : St) (h : NR c s) : NR c (handleLogin s) :=
       split
       · exact { h with }
       · rename_i hd
-        exact absurd ((h.hist x (List.mem_of_getLast? hx)).2 hk.2) hd
+        exact absurd (h.hist x (List.mem_of_getLast? hx) hk.1 hk.2) hd
     · exact h
 
 theorem nr_handleChangePw (c : Cfg) (s : St) (h : NR c s) : NR c (handleChangePw c s) := by
@@ -215,12 +218,13 @@ theorem nr_returnHandler (c : Cfg) (x : Hist) (s : St) (h : NR c s) : NR c (retu
   · exact { h with stage := Or.inl rfl, planned := fun hh => not_mid_failed hh }
   · exact h
 
-theorem nr_reasonCheck (c : Cfg) (x : Hist) (s : St) (hx : x.resp.wf) (h : NR c s) : NR c (reasonCheck x s) := by
+theorem nr_reasonCheck (c : Cfg) (x : Hist) (s : St) (hx : x.resp.ok = false → x.resp.hasReason = true) (h : NR c s) :
+    NR c (reasonCheck x s) := by
   unfold reasonCheck
   split
   · rename_i hb
     have hok : x.resp.ok = false := by simpa using hb.1
-    exact absurd (hx.1 hok) hb.2
+    exact absurd (hx hok) hb.2
   · exact h
 
 theorem nr_setNext (c : Cfg) (s : St) (b d : Int) (h : NR c s) : NR c (setNext c s b d) := by
@@ -447,13 +451,12 @@ theorem pyIndex_mem {α} (l : List α) (i : Int) (x : α) (h : pyIndex l i = som
     · exact List.mem_of_getElem? h
     · cases h
 
-/-- The history item the return handler looks at is well formed. -/
-theorem lookBack_wf (c : Cfg) (s : St) (h : NR c s) (x : Hist) (hx : lookBack s = some x) : x.resp.wf := by
+/-- The history item the return handler looks at: the synthetic successful one, or an item of the history. -/
+theorem lookBack_cases (s : St) (x : Hist) (hx : lookBack s = some x) : x.resp.ok = true ∨ x ∈ s.hist := by
   unfold lookBack at hx
   split at hx
-  · cases hx
-    exact ⟨fun e => (by cases e), fun _ => rfl⟩
-  · exact h.hist x (pyIndex_mem _ _ _ hx)
+  · cases hx; exact Or.inl rfl
+  · exact Or.inr (pyIndex_mem _ _ _ hx)
 
 theorem nr_mainPath (c : Cfg) (s : St) (t : Int) (i : In) (ht : 0 ≤ t) (h : NR c s) : NR c (mainPath c s t i) :=
   nr_bodies c i _ (nr_outcomeHandler c _ (nr_setNext c _ _ _ (nr_curT c s t ht h)))
@@ -461,17 +464,24 @@ theorem nr_mainPath (c : Cfg) (s : St) (t : Int) (i : In) (ht : 0 ≤ t) (h : NR
 theorem nr_failPath (c : Cfg) (s : St) (t : Int) (i : In) (ht : 0 ≤ t) (h : NR c s) : NR c (failPath c s t i) :=
   nr_outcomeHandler c _ (nr_setNext c _ _ _ (nr_curT c s t ht h))
 
-theorem nr_getActionCore (c : Cfg) (s : St) (t : Int) (i : In) (ht : 0 ≤ t) (hp : NR c s) : NR c (getActionCore c s t i).1 := by
+/-- `ReasonOk c s`: IF the call gets past the return handler with a failed look-back response (only PLANNING does), that
+response carries `data["reason"]`.  The two run-level theorems discharge it differently. -/
+def ReasonOk (c : Cfg) (s : St) : Prop :=
+  ∀ x, lookBack s = some x → passes x (returnHandler c x s) = true → x.resp.ok = false → x.resp.hasReason = true
+
+theorem nr_getActionCore (c : Cfg) (s : St) (t : Int) (i : In) (ht : 0 ≤ t) (hp : NR c s) (hrs : ReasonOk c s) :
+    NR c (getActionCore c s t i).1 := by
   by_cases hex : executes s t = true
   · obtain ⟨x, hx⟩ := lookBack_some s hp.curT
-    have hwf := lookBack_wf c s hp x hx
+    have hr2 := hrs x hx
     have hr := nr_returnHandler c x s hp
     unfold getActionCore
     rw [if_neg (by simp [hex])]
     simp only [hx]
-    generalize returnHandler c x s = s1 at hr ⊢
+    generalize returnHandler c x s = s1 at hr hr2 ⊢
     split
-    · have := nr_mainPath c (reasonCheck x s1) t i ht (nr_reasonCheck c x s1 hwf hr)
+    · rename_i hpass
+      have := nr_mainPath c (reasonCheck x s1) t i ht (nr_reasonCheck c x s1 (hr2 hpass) hr)
       dsimp only
       exact this
     · have := nr_failPath c s1 t i ht hr
@@ -481,38 +491,71 @@ theorem nr_getActionCore (c : Cfg) (s : St) (t : Int) (i : In) (ht : 0 ≤ t) (h
     rw [if_pos hex]
     exact hp
 
-theorem nr_getAction (c : Cfg) (s : St) (t : Int) (i : In) (ht : 0 ≤ t) (h : NR c s) : NR c (getAction c s t i).1 :=
-  nr_getActionCore c _ t i ht (nr_preGuard c s h)
+theorem reasonOk_preGuard (c : Cfg) (s : St) (h : ReasonOk c s) : ReasonOk c (preGuardHandlers c s) := by
+  intro x hx hp
+  rw [lookBack_preGuard] at hx
+  refine h x hx ?_
+  have hf := preGuard_fields c s
+  unfold passes returnHandler at hp ⊢
+  split at hp <;> split <;> simp_all
 
-/-- One tick of a live agent in a state satisfying the invariant, answered by a well-formed response: the call does not
-raise, the agent stays alive, the invariant holds again. -/
-theorem nr_step (c : Cfg) (s : St) (t : Int) (i : In) (ht : 0 ≤ t) (hi : i.resp.wf) (hd : s.dead = false) (h : NR c s) :
-    NR c (step c s t i).1 ∧ (step c s t i).1.dead = false ∧ (step c s t i).2 ≠ .raised := by
-  have hg := nr_getAction c s t i ht h
+theorem nr_getAction (c : Cfg) (s : St) (t : Int) (i : In) (ht : 0 ≤ t) (h : NR c s) (hrs : ReasonOk c s) :
+    NR c (getAction c s t i).1 :=
+  nr_getActionCore c _ t i ht (nr_preGuard c s h) (reasonOk_preGuard c s hrs)
+
+/-- One tick of a live agent in a state satisfying the invariant: if the look-back response is usable (`ReasonOk`) and the
+response to the action of this tick, should it be a successful login, carries the login data, the call does not raise, the
+agent stays alive, the invariant holds again, and the history grew by exactly this action and its response. -/
+theorem nr_step (c : Cfg) (s : St) (t : Int) (i : In) (ht : 0 ≤ t) (hrs : ReasonOk c s)
+    (hi : Hist.loginOk { act := (getAction c s t i).2, resp := i.resp }) (hd : s.dead = false) (h : NR c s) :
+    NR c (step c s t i).1 ∧ (step c s t i).1.dead = false ∧ (step c s t i).2 = .act (getAction c s t i).2 ∧
+    (step c s t i).1.hist = s.hist ++ [{ act := (getAction c s t i).2, resp := i.resp }] ∧
+    (step c s t i).1.cur = (getAction c s t i).1.cur ∧ (step c s t i).1.curT = (getAction c s t i).1.curT := by
+  have hg := nr_getAction c s t i ht h hrs
   have hdead : (getAction c s t i).1.dead = false := by rw [getAction_dead]; exact hd
+  have hh := getAction_hist c s t i
   unfold step
   rw [if_neg (by simp [hd]), if_neg (by simp [hg.err])]
-  refine ⟨{ hg with hist := fun x hx => ?_ }, hdead, fun e => by cases e⟩
+  refine ⟨{ hg with hist := fun x hx => ?_ }, hdead, rfl, by simp only []; rw [hh], rfl, rfl⟩
   rcases List.mem_append.1 hx with hx | hx
   · exact hg.hist x hx
   · simp only [List.mem_singleton] at hx
     rw [hx]; exact hi
 
-/-! ## 34. Run level -/
+/-! ## 34. Run level, responses well formed whatever the action -/
+
+/-- every failed response of the history carries a reason -/
+def AllReason (s : St) : Prop := ∀ h ∈ s.hist, h.resp.ok = false → h.resp.hasReason = true
+
+theorem reasonOk_of_allReason (c : Cfg) (s : St) (h : AllReason s) : ReasonOk c s := by
+  intro x hx _ hok
+  rcases lookBack_cases s x hx with e | e
+  · rw [e] at hok; cases hok
+  · exact h x e hok
 
 theorem run_nr (c : Cfg) : ∀ (ins : List In) (s : St) (t : Int), 0 ≤ t → (∀ i ∈ ins, i.resp.wf) → s.dead = false → NR c s →
-    (NR c (after c s t ins) ∧ (after c s t ins).dead = false) ∧ ∀ o ∈ runOut c s t ins, o.2 ≠ .raised := by
+    AllReason s →
+    (NR c (after c s t ins) ∧ (after c s t ins).dead = false ∧ AllReason (after c s t ins)) ∧
+    ∀ o ∈ runOut c s t ins, o.2 ≠ .raised := by
   intro ins
   induction ins with
-  | nil => intro s t _ _ hd h; exact ⟨⟨h, hd⟩, fun o ho => by cases ho⟩
+  | nil => intro s t _ _ hd h hall; exact ⟨⟨h, hd, hall⟩, fun o ho => (by cases ho)⟩
   | cons i is ih =>
-    intro s t ht hwf hd h
-    obtain ⟨h1, hd1, ho1⟩ := nr_step c s t i ht (hwf i List.mem_cons_self) hd h
-    obtain ⟨ha, hr⟩ := ih (step c s t i).1 (t + 1) (by omega) (fun j hj => hwf j (List.mem_cons_of_mem _ hj)) hd1 h1
+    intro s t ht hwf hd h hall
+    have hwi := hwf i List.mem_cons_self
+    obtain ⟨h1, hd1, ho1, hh1, _, _⟩ := nr_step c s t i ht (reasonOk_of_allReason c s hall) (fun _ hok => hwi.2 hok) hd h
+    have hall1 : AllReason (step c s t i).1 := by
+      intro x hx
+      rw [hh1] at hx
+      rcases List.mem_append.1 hx with hx | hx
+      · exact hall x hx
+      · simp only [List.mem_singleton] at hx
+        rw [hx]; exact hwi.1
+    obtain ⟨ha, hr⟩ := ih (step c s t i).1 (t + 1) (by omega) (fun j hj => hwf j (List.mem_cons_of_mem _ hj)) hd1 h1 hall1
     refine ⟨by simpa [after] using ha, fun o ho => ?_⟩
     simp only [runOut, List.mem_cons] at ho
     rcases ho with ho | ho
-    · rw [ho]; exact ho1
+    · rw [ho, ho1]; exact fun e => (by cases e)
     · exact hr o ho
 
 /-- **A validated TAP003 never raises.**  For every configuration the constructor accepts (settings validator
@@ -529,7 +572,11 @@ theorem C19_tap3_validated_never_raises (c : Cfg) (d0 : Int) (k : Nat) (s0 : St)
     unfold init at h0; split at h0
     · cases h0; rfl
     · cases h0
-  obtain ⟨⟨hn, hdd⟩, ho⟩ := run_nr c ins s0 0 (Int.le_refl 0) hwf hd (nr_init c d0 k s0 h0)
+  have hall : AllReason s0 := by
+    unfold init at h0; split at h0
+    · cases h0; intro x hx; cases hx
+    · cases h0
+  obtain ⟨⟨hn, hdd, _⟩, ho⟩ := run_nr c ins s0 0 (Int.le_refl 0) hwf hd (nr_init c d0 k s0 h0) hall
   exact ⟨ho, hdd, hn.err, hn⟩
 
 /-- **Liveness of the schedule of a validated TAP003 without the escape clause.**  `C19_tap3_next_slot` (round 6) said "the
@@ -545,8 +592,12 @@ theorem C19_tap3_validated_next_slot (c : Cfg) (d0 : Int) (k : Nat) (s0 : St) (h
     unfold init at h0; split at h0
     · cases h0; rfl
     · cases h0
-  obtain ⟨⟨hn1, hd1⟩, _⟩ := run_nr c pre s0 0 (Int.le_refl 0) hpre hd0 (nr_init c d0 k s0 h0)
-  obtain ⟨⟨_, hd2⟩, _⟩ := run_nr c w (after c s0 0 pre) (0 + pre.length) (by omega) hw hd1 hn1
+  have hall0 : AllReason s0 := by
+    unfold init at h0; split at h0
+    · cases h0; intro x hx; cases hx
+    · cases h0
+  obtain ⟨⟨hn1, hd1, hall1⟩, _⟩ := run_nr c pre s0 0 (Int.le_refl 0) hpre hd0 (nr_init c d0 k s0 h0) hall0
+  obtain ⟨⟨_, hd2, _⟩, _⟩ := run_nr c w (after c s0 0 pre) (0 + pre.length) (by omega) hw hd1 hn1 hall1
   rw [after_append]
   have hslot := C19_tap3_next_slot c w (after c s0 0 pre) (0 + pre.length) hd1 hc (by omega)
   rcases hslot with hdead | ⟨h1, _, h3⟩
